@@ -31,6 +31,10 @@ pub struct Case {
     /// 0 none, 1 copy_file_range EIO, 2 write-open ENOSPC, 3 ftruncate EIO, 4 mkdir EACCES, 5 short copy_file_range
     pub fault: u8,
     pub fault_k: u8,
+    /// sparse files added to the first source: (hole length in 4 KiB blocks, data length) - the last extent
+    /// then usually extends past an unaligned EOF
+    #[serde(default)]
+    pub sparse: Vec<(u16, u16)>,
 }
 
 fn base_strategy() -> BoxedStrategy<c02::Case> {
@@ -42,7 +46,7 @@ fn base_strategy() -> BoxedStrategy<c02::Case> {
         2 => (prop::collection::vec((any::<u16>(), mk), 1..5), 0u8..2).prop_map(|(m, x)| DestSpec::Populated(m, x)),
     ];
     (prop::collection::vec(src, 1..3), dest, prop::bool::weighted(0.5))
-        .prop_map(|(srcs, dest, nolinks)| c02::Case { srcs, dest, dest_spell: Spell::Plain, flags: (false, 4, None), no_target_dir: false, target_dir_opt: false, glob: GlobMode::Off, nolinks })
+        .prop_map(|(srcs, dest, nolinks)| c02::Case { srcs, dest, dest_spell: Spell::Plain, flags: (false, 4, None), no_target_dir: false, target_dir_opt: false, glob: GlobMode::Off, nolinks, extra: 0 })
         .boxed()
 }
 
@@ -53,11 +57,12 @@ pub fn strategy() -> BoxedStrategy<Case> {
         any::<bool>(),
         prop_oneof![Just(1u8), Just(2), Just(4), Just(8), Just(16)],
         prop_oneof![2 => Just(u64::MAX), 2 => Just(1024u64), 2 => Just(4096u64), 1 => Just(65536u64), 1 => Just(100u64)],
-        prop::option::weighted(0.2, run_cfg()),
+        prop::option::weighted(0.3, run_cfg()),
         prop_oneof![6 => Just(0u8), 1 => Just(1u8), 1 => Just(2u8), 1 => Just(3u8), 1 => Just(4u8), 1 => Just(5u8)],
         0u8..6,
+        prop::collection::vec((1u16..400, 1u16..9000), 0..3),
     )
-        .prop_map(|(base, updater, parblock, workers, block, sup, fault, fault_k)| Case { base, updater, parblock, workers, block, sup, fault, fault_k })
+        .prop_map(|(base, updater, parblock, workers, block, sup, fault, fault_k, sparse)| Case { base, updater, parblock, workers, block, sup, fault, fault_k, sparse })
         .boxed()
 }
 
@@ -79,7 +84,13 @@ pub fn judge(c: &Case, rec: &mut Rec) -> Verdict {
         Err(e) => return Verdict::Inconclusive(format!("sandbox: {e}")),
     };
     let root = sb.rootb();
-    let b = c02::build(&c.base, &root);
+    let mut b = c02::build(&c.base, &root);
+    if let Some(first_src) = b.inv.sources.first().cloned() {
+        for (i, (hb, dl)) in c.sparse.iter().enumerate() {
+            let p = join(&first_src, format!("sparse_{}", i).as_bytes());
+            b.ents.push(crate::spec::Ent::file(&p, crate::spec::Content { segs: vec![crate::spec::Seg::Hole(*hb as u64 * 4096), crate::spec::Seg::Data(*dl as u64, 7)], sync: i % 2 == 0 }));
+        }
+    }
     if let Err(e) = materialise(&sb.root, &b.ents) {
         return Verdict::Inconclusive(format!("materialise: {e}"));
     }
@@ -169,7 +180,7 @@ pub fn judge(c: &Case, rec: &mut Rec) -> Verdict {
     let bs = if c.block == u64::MAX { u64::MAX } else { c.block };
     let multi = mapped.iter().any(|m| m.kind == K::F && pre[&m.src].size > bs);
     let key = format!(
-        "{}|{}|w{}|{}|{}|fault{}|{}|ok={}",
+        "{}|{}|w{}|{}|{}|fault{}|{}|sparse={}|ok={}",
         driver,
         updater,
         c.workers,
@@ -177,6 +188,7 @@ pub fn judge(c: &Case, rec: &mut Rec) -> Verdict {
         b.dest_state,
         if supervised { c.fault } else { 0 },
         if supervised { "supervised" } else { "plain" },
+        !c.sparse.is_empty(),
         ok
     );
     let new = rec.class(key);
@@ -308,6 +320,6 @@ impl Check for C12 {
         }
     }
     fn required_classes(&self, _tier: Tier) -> Vec<String> {
-        ["|record|", "|channel|", "|noop|", "parblock|", "parfile|", "multiblock", "supervised", "fault1", "fault5", "ok=false"].iter().map(|s| s.to_string()).collect()
+        ["|record|", "|channel|", "|noop|", "parblock|", "parfile|", "multiblock", "supervised", "fault1", "fault5", "ok=false", "supervised|sparse=true"].iter().map(|s| s.to_string()).collect()
     }
 }
